@@ -841,6 +841,19 @@ for _p in PROPERTY_FAMILIES:
 # --------------------------------------------------------------------------------------------------
 # engine F: free-running real threads judged by the monitors
 # --------------------------------------------------------------------------------------------------
+def hang_clause(h_all, sc):
+    """the store hangs (outside the known class F5: no iterator in the scenario): client calls that
+    never return, or a stop() that never completes - every property's "is eventually processed" fails"""
+    if " it:" in sc or " di:" in sc or " itw:" in sc:
+        return []
+    unfinished = next((ln[len("END unfinished="):] for ln in h_all if ln.startswith("END unfinished=")), "-")
+    hung = any(ln.endswith(" CLEANUP-HUNG") for ln in h_all)
+    if unfinished != "-" or hung:
+        return [("hang", "the store hangs: %s" % ("calls that never return: " + unfinished if unfinished != "-"
+                                                  else "stop() does not complete"))]
+    return []
+
+
 def run_free(rep, scens, family, monitor):
     """no model in the loop: the harness runs each scenario on real threads at full speed, the
     property's monitor judges the global log. Returns the number of rejected histories."""
@@ -896,6 +909,7 @@ def run_free(rep, scens, family, monitor):
                 continue
             rep.distinct.add((family, hash(tuple(ln for ln in h_all if ln.startswith("L ")))))
             bad, known = run_monitor(monitor, h_all, sc)
+            bad = list(bad) + hang_clause(h_all, sc)
             for kf in known:
                 rep.known_hits[kf.split(" (")[0]] = rep.known_hits.get(kf.split(" (")[0], 0) + 1
             if bad:
@@ -959,6 +973,7 @@ def run_free2(rep, pairs, family, monitor):
             rep.distinct.add((family, hash(tuple(ln for ln in ha + hb if ln.startswith("L ")))))
             for which, sc, h in (("A", sa, ha), ("B", sb, hb)):
                 bad, _ = run_monitor(monitor, h, sc)
+                bad = list(bad) + hang_clause(h, sc)
                 if bad:
                     rejected += 1
                     if rejected <= 3:
